@@ -67,8 +67,9 @@ def _observe(res_unit, fn, make, reg, faulty, out, replayer=None):
                                 expected="the stream's exception propagates unchanged", got=repr(o))
         collect(res, ctx)
     explore_unit(res, run)
-    # engine limits other than frame/iface are irrelevant here (they are reported by the owning check)
-    res.undecided = [u for u in res.undecided if "iface" in str(u[1]).lower() or "frame" in str(u[1]).lower()]
+    # float code is outside the subset and has its own bounded stand-ins; every other engine limit leaves the
+    # frame of that path undecided and is reported
+    res.undecided = [u for u in res.undecided if not any(k in str(u[1]) for k in ("float", "SInstantSeconds", "total_seconds"))]
     out.append(common.summarise(res, [common.function_record(fn)]))
 
 
